@@ -204,6 +204,7 @@ fn gen_script(rng: &mut StdRng, always_restart: bool) -> J {
                      "policy": policy, "wd": wd, "safe": safe, "singles": singles, "imgLen": IMG,
                      "counters": counters, "sinit": sinit, "access": access, "vars0": vars0});
     let mut steps = Vec::new();
+    let dbg_run = rng.gen_bool(0.5);
     let ncyc = rng.gen_range(3..10);
     let faulty = rng.gen_bool(0.45);
     for _ in 0..ncyc {
@@ -227,6 +228,24 @@ fn gen_script(rng: &mut StdRng, always_restart: bool) -> J {
             let (b, bit) = (rng.gen_range(0..=IMG - n), rng.gen_range(0..8usize));
             let val: Vec<u8> = if sz == "X" { vec![rng.gen_range(0..2)] } else { (0..n).map(|_| rng.gen_range(0..=255)).collect() };
             steps.push(json!({"a": "DirectWrite", "addr": {"area": area, "size": sz, "byte": b, "bit": if sz == "X" { bit } else { 0 }}, "val": val}));
+        }
+        if dbg_run && !bindings.is_empty() && rng.gen_bool(0.25) {
+            // a debugger write to a bound variable (applied at the next cycle boundary)
+            let b = &bindings[rng.gen_range(0..bindings.len())];
+            let n = nbytes(b["size"].as_str().unwrap());
+            let val: Vec<u8> = if b["size"] == "X" { vec![rng.gen_range(0..2)] } else { (0..n).map(|_| rng.gen_range(0..=255)).collect() };
+            steps.push(json!({"a": "DebugVarWrite", "var": b["var"], "val": val}));
+            if rng.gen_bool(0.3) {
+                let val2: Vec<u8> = if b["size"] == "X" { vec![rng.gen_range(0..2)] } else { (0..n).map(|_| rng.gen_range(0..=255)).collect() };
+                steps.push(json!({"a": "DebugVarWrite", "var": b["var"], "val": val2}));
+            }
+        }
+        if dbg_run && rng.gen_bool(0.15) {
+            let sz = ["X", "B", "W", "D"][rng.gen_range(0..4)];
+            let n = nbytes(sz);
+            let (b, bit) = (rng.gen_range(0..=IMG - n), rng.gen_range(0..8usize));
+            let val: Vec<u8> = if sz == "X" { vec![rng.gen_range(0..2)] } else { (0..n).map(|_| rng.gen_range(0..=255)).collect() };
+            steps.push(json!({"a": "DebugIoWrite", "addr": {"area": "I", "size": sz, "byte": b, "bit": if sz == "X" { bit } else { 0 }}, "val": val}));
         }
         if faulty && rng.gen_bool(0.2) {
             let j = rng.gen_range(0..np);
@@ -262,7 +281,7 @@ fn gen_script(rng: &mut StdRng, always_restart: bool) -> J {
             steps.push(json!({"a": "DirectRead", "addr": {"area": area, "size": sz, "byte": b, "bit": if sz == "X" { bit } else { 0 }}}));
         }
     }
-    json!({"cfg": cfg, "steps": steps, "dbg": rng.gen_bool(0.5)})
+    json!({"cfg": cfg, "steps": steps, "dbg": dbg_run})
 }
 
 // ------------------------------------------------------------------ rendering
@@ -568,6 +587,28 @@ fn run_script(sc: &J, o: &mut Out) -> bool {
             }
             "FailDriver" => {
                 sh.lock().unwrap().fail = (st["d"].as_u64().unwrap() as usize, st["op"].as_str().unwrap().to_string());
+                o.line(st);
+            }
+            "DebugVarWrite" => {
+                let d = dbg.as_ref().expect("DebugVarWrite in a run without debugger");
+                let var = st["var"].as_str().unwrap();
+                let b = cfg["bindings"].as_array().unwrap().iter().find(|b| b["var"] == var).unwrap();
+                let value = from_le_bytes(b["ty"].as_str().unwrap(), &bytes_of(&st["val"]));
+                if b["owner"] == json!(-1) {
+                    d.enqueue_global_write(var, value);
+                } else {
+                    let pname = format!("P{}", b["owner"]);
+                    match h.runtime().storage().get_global(&pname) {
+                        Some(Value::Instance(id)) => d.enqueue_instance_write(*id, var, value),
+                        o => panic!("program instance {pname}: {o:?}"),
+                    }
+                }
+                o.line(st);
+            }
+            "DebugIoWrite" => {
+                let d = dbg.as_ref().expect("DebugIoWrite in a run without debugger");
+                let b = bytes_of(&st["val"]);
+                d.enqueue_io_write(io_addr(&st["addr"]), io_value(st["addr"]["size"].as_str().unwrap(), &b));
                 o.line(st);
             }
             "Watchdog" | "SimFault" => {
